@@ -84,7 +84,7 @@ impl Scenario for C17Tracing {
                     .map(|_| match r.below(10) {
                         0..=2 if depth < 5 => {
                             depth += 1;
-                            Op::Enter(r.below(4) as u8, r.below(4) as u8)
+                            Op::Enter(if r.chance(200) { 4 + r.below(2) as u8 } else { r.below(4) as u8 }, r.below(4) as u8)
                         }
                         3 if depth > 0 => {
                             depth -= 1;
@@ -131,11 +131,16 @@ impl Scenario for C17Tracing {
                                 Op::Enter(kind, v) => {
                                     let s = val(*v);
                                     let n = *v as u64 + 10;
-                                    let (sp, own): (tracing::Span, Vec<(&str, String)>) = match kind % 4 {
+                                    let (sp, own): (tracing::Span, Vec<(&str, String)>) = match kind % 6 {
+                                        // wide spans: two of them nested carry more labels than the pooled label
+                                        // maps keep capacity for
+                                        4 => (span!(tracing::Level::INFO, "wide_a", wa0 = n, wa1 = n, wa2 = n, wa3 = n, wa4 = n, wa5 = n, wa6 = n, wa7 = n, wa8 = n, wa9 = n, wa10 = n, wa11 = n, wa12 = n, wa13 = n, wa14 = n, wa15 = n), ["wa0", "wa1", "wa2", "wa3", "wa4", "wa5", "wa6", "wa7", "wa8", "wa9", "wa10", "wa11", "wa12", "wa13", "wa14", "wa15"].iter().map(|k| (*k, n.to_string())).collect()),
+                                        5 => (span!(tracing::Level::INFO, "wide_b", wb0 = n, wb1 = n, wb2 = n, wb3 = n, wb4 = n, wb5 = n, wb6 = n, wb7 = n, wb8 = n, wb9 = n, wb10 = n, wb11 = n, wb12 = n, wb13 = n, wb14 = n, wb15 = n), ["wb0", "wb1", "wb2", "wb3", "wb4", "wb5", "wb6", "wb7", "wb8", "wb9", "wb10", "wb11", "wb12", "wb13", "wb14", "wb15"].iter().map(|k| (*k, n.to_string())).collect()),
                                         0 => (span!(tracing::Level::INFO, "k0", user = s.as_str(), shared = n), vec![("user", s.clone()), ("shared", n.to_string())]),
                                         1 => (span!(tracing::Level::INFO, "k1", shared = -(n as i64), mid_only = (*v % 2 == 0), late = Empty), vec![("shared", (-(n as i64)).to_string()), ("mid_only", (*v % 2 == 0).to_string())]),
                                         2 => (span!(tracing::Level::INFO, "k2", shared = ?s, leaf = s.as_str()), vec![("shared", format!("{:?}", s)), ("leaf", s.clone())]),
-                                        _ => (span!(tracing::Level::INFO, "k3", late = Empty), vec![]),
+                                        3 => (span!(tracing::Level::INFO, "k3", late = Empty), vec![]),
+                                        _ => unreachable!(),
                                     };
                                     let mut labels: Labels = own.into_iter().map(|(k, v)| (k.to_string(), v)).collect();
                                     if let Some((_, parent)) = model.last() {
@@ -143,7 +148,7 @@ impl Scenario for C17Tracing {
                                             labels.entry(k.clone()).or_insert_with(|| v.clone());
                                         }
                                     }
-                                    model.push((*kind % 4, labels));
+                                    model.push((*kind % 6, labels));
                                     entered.push(sp.entered());
                                 }
                                 Op::Exit => {
@@ -161,7 +166,7 @@ impl Scenario for C17Tracing {
                                                 e.record("late", s.as_str());
                                                 labels.insert("late".into(), s);
                                             }
-                                            1 if *kind != 3 => {
+                                            1 if *kind < 3 => {
                                                 let n = *v as u64 + 100;
                                                 e.record("shared", n);
                                                 labels.insert("shared".into(), n.to_string());
@@ -289,6 +294,6 @@ impl Scenario for C17Tracing {
         vec!["thread scheduler (dsim) at harness-operation granularity (sharded-slab and the object pool are not instrumented)", "inner recorder double"]
     }
     fn assumptions(&self) -> Vec<&'static str> {
-        vec!["span call sites are a fixed set of four (tracing needs static call sites) with overlapping field names, Empty fields and values of every visited type; interleavings inside sharded-slab / the label pool are not subdivided"]
+        vec!["span call sites are a fixed set of six (two of them with 16 fields each) (tracing needs static call sites) with overlapping field names, Empty fields and values of every visited type; interleavings inside sharded-slab / the label pool are not subdivided"]
     }
 }
